@@ -5,7 +5,8 @@ import vlib
 MANIFEST = {
     "modules": ["Exec"],
     "text": "Exec.tla is a reference interpreter for the builder grammar (sequence / while / if / if-else / scope, "
-            "init -> require -> execute, scope push/pop, pass counter, single fault injection). TLC enumerates ALL "
+            "init -> require -> execute, scope push/pop, pass counter, single fault injection; leaves create their state by "
+            "insert or through the get-or-create entry accessors). TLC enumerates ALL "
             "programs up to a statement bound x all condition scripts x all single faults and checks eight lifecycle "
             "properties stated over the event sequence (independently of the tree walk). Every enumerated case is "
             "then built with Configuration::builder() from instrumented leaves/conditions and run with "
@@ -23,7 +24,7 @@ JAVA = "-Xss512m"
 
 
 def cfg_mc(n, l, f, export):
-    return ("SPECIFICATION ESpec\nCONSTANTS\n  LeafVariants = {\"plain\", \"ins0\", \"req0\", \"seed\"}\n  MaxStmts = %d\n  MaxScript = %d\n  MaxFault = %d\nINVARIANT %s\n"
+    return ("SPECIFICATION ESpec\nCONSTANTS\n  LeafVariants = {\"plain\", \"ins0\", \"ent0\", \"req0\", \"seed\"}\n  MaxStmts = %d\n  MaxScript = %d\n  MaxFault = %d\nINVARIANT %s\n"
             "CHECK_DEADLOCK FALSE\n" % (n, l, f, "PrintCase" if export else INVS))
 
 
